@@ -90,6 +90,31 @@ def run(chk, ctx):
             kinds[v] = tuple(sorted(conds))
         want = {"Virtual": (("typ", ("Virtual",)),), "Output": (("position", ("Some",)), ("typ", ("Input", "Output", "Bidirectional"))), "None": (("position", ("None",)), ("typ", ("Input", "Output", "Bidirectional")))}
         chk.require(kinds == want, "TAB", "TAB:build_output_indices:three-way", "Virtual => Virtual; position Some(n) => Output(n); else None", "build_output_indices decides %s" % kinds)
+        # exact decision table of one loop iteration: every decision taken between fetching the expected
+        # index and pushing the entry, and the entry pushed
+        pushb = [bb for bb, t in boi.calls() if callee_name(t)[0] == "std::vec::Vec::push" and canon(P.call_arg_terms(boi, bb)[0]).startswith("Vec::with_capacity")]
+        nextb = [bb for bb, t in boi.calls() if callee_name(t)[0] == "<std::slice::Iter<T> as std::iter::Iterator>::next"]
+        if chk.anchor("output_indices loop", len(pushb) == 1 and len(nextb) == 1):
+            rows = set()
+            for pi in tab.paths(P, boi, start=nextb[0], stop=lambda x: x == pushb[0]):
+                if pi.path[-1] != pushb[0]:
+                    continue
+                facts_ = []
+                for d in pi.decisions():
+                    if d[0] == "variant":
+                        subj = "typ" if d[1].endswith(".typ") else "position" if d[1].startswith("Iterator::position(") else "next" if d[1].startswith("Iterator::next(") else d[1]
+                        if subj != "next":
+                            facts_.append((subj, d[2]))
+                    elif d[0] == "bool":
+                        facts_.append(("bool:" + d[1][:80], d[2]))
+                    else:
+                        facts_.append((d[0] + ":" + d[1][:80], d[2]))
+                entry = terms.strip(pi.term(boi.term(pushb[0])["args"][1], pushb[0]))
+                ev = entry[2].split("::")[-1] if entry[0] == "agg" else canon(entry)[:60]
+                rows.add((tuple(sorted(set(facts_), key=str)), ev))
+            NV = ("Input", "Output", "Bidirectional")
+            want_rows = {((("typ", ("Virtual",)),), "Virtual"), ((("position", ("Some",)), ("typ", NV)), "Output"), ((("position", ("None",)), ("typ", NV)), "None")}
+            chk.require(rows == want_rows, "TAB", "TAB:build_output_indices:exact-three-way", "exactly: Virtual => Virtual; else position Some(n) => Output(n); else None — no other condition", "one iteration of the layout loop decides %s" % sorted(rows, key=str))
         pos = [[canon(x) for x in P.call_arg_terms(boi, bb)] for bb, t in boi.calls() if callee_name(t)[0] == "<std::slice::Iter<T> as std::iter::Iterator>::position"]
         chk.require(pos == [["[T]::iter(outputs)", "closure({closure#0})"]], "ORG", "ORG:build_output_indices:position-in-first-answer", "outputs.iter().position(..)", "position searched in %s" % pos)
         cl = P.body(boi.name + "::{closure#0}")
